@@ -350,7 +350,44 @@ class Normalizer:
         if _depth > 10:
             return
 
+        def const_strings(e):
+            if isinstance(e, (ast.Tuple, ast.List)) and e.elts and all(isinstance(x, ast.Constant) and isinstance(x.value, str) for x in e.elts):
+                return [x.value for x in e.elts]
+            if isinstance(e, ast.Name):
+                stores = [n for n in ast.walk(f.node) if isinstance(n, (ast.Assign, ast.AnnAssign)) and
+                          any(isinstance(t, ast.Name) and t.id == e.id for t in (n.targets if isinstance(n, ast.Assign) else [n.target]))]
+                others = [n for n in ast.walk(f.node) if isinstance(n, ast.Name) and n.id == e.id and not isinstance(n.ctx, ast.Load)]
+                if len(stores) == 1 and len(others) == 1 and stores[0].value is not None:
+                    return const_strings(stores[0].value)
+                g = f.module.globals.get(e.id)
+                if not stores and not others and g is not None and f.module.global_assign_count.get(e.id, 1) == 1 and getattr(g, "value", None) is not None:
+                    return const_strings(g.value)
+            return None
+
+        class _Subst(ast.NodeTransformer):
+            def __init__(self_, nm, val):
+                self_.nm, self_.val = nm, val
+
+            def visit_Name(self_, n):
+                if n.id == self_.nm and isinstance(n.ctx, ast.Load):
+                    return ast.copy_location(ast.Constant(self_.val), n)
+                return n
+
+            def visit_Call(self_, n):
+                n = self_.generic_visit(n)
+                if isinstance(n.func, ast.Name) and n.func.id == "getattr" and len(n.args) == 2 and not n.keywords \
+                        and isinstance(n.args[1], ast.Constant) and isinstance(n.args[1].value, str):
+                    return ast.copy_location(ast.Attribute(n.args[0], n.args[1].value, ast.Load()), n)
+                return n
+
         def const_dict(e):
+            if isinstance(e, ast.DictComp) and len(e.generators) == 1 and not e.generators[0].ifs and isinstance(e.generators[0].target, ast.Name) \
+                    and isinstance(e.key, ast.Name) and e.key.id == e.generators[0].target.id:
+                # {name: getattr(obj, name) for name in ("a", "b")}: unrolled over the constant names
+                names = const_strings(e.generators[0].iter)
+                if names:
+                    return [(nm, ast.fix_missing_locations(_Subst(e.key.id, nm).visit(copy.deepcopy(e.value)))) for nm in names]
+                return None
             if isinstance(e, ast.Dict) and all(isinstance(k, ast.Constant) and isinstance(k.value, str) for k in e.keys):
                 return [(k.value, v) for k, v in zip(e.keys, e.values)]
             if isinstance(e, ast.Call) and isinstance(e.func, ast.Name) and e.func.id == "dict" and not e.args \
@@ -651,9 +688,17 @@ class Normalizer:
             if len(users) == 1 and isinstance(bound[users[0]], ast.Name) and users[0] not in defaults_in_callee_scope \
                     and not _read_on_exceptional_exit(f.node, tname):
                 threaded = users[0]
+        host_locals = _assigned_names(f.node)
+
+        def module_constant(e):
+            # dotted name rooted at an imported module (np.linalg.LinAlgError, data_preparation.stack_training_data)
+            while isinstance(e, ast.Attribute):
+                e = e.value
+            return isinstance(e, ast.Name) and e.id in f.module.imports and e.id not in host_locals
+
         for p in order:
             a = bound[p]
-            simple = isinstance(a, (ast.Constant, ast.Name))
+            simple = isinstance(a, (ast.Constant, ast.Name)) or (isinstance(a, ast.Attribute) and module_constant(a))
             if p == threaded:
                 mapping[p] = a.id
                 continue
